@@ -366,9 +366,13 @@ def strategy(prop, tier, allow_zero_cap=True):
     else:
         base = gen.box_case(types=types, max_n=6, max_w=4, lo=-4, hi=5, allow_zero_cap=allow_zero_cap, big=True)
         pts = gen.box_case(types=types, max_n=7, max_w=0, point=True, lo=-4, hi=5, allow_zero_cap=allow_zero_cap, big=True)
+    # the same shapes far away from zero (gen.far_box_case): one case in five
+    kw = dict(types=types, max_n=5, max_w=3, allow_zero_cap=allow_zero_cap) if tier == "quick" else dict(types=types, max_n=6, max_w=4, lo=-4, hi=5, allow_zero_cap=allow_zero_cap, big=True)
+    far = gen.far_box_case(**kw)
     if prop == "C06":
-        return st.one_of(pts, pts, base)
-    return base
+        far_pts = gen.far_box_case(**dict(kw, max_w=0, point=True))
+        return st.one_of(pts, pts, base, pts, base, far_pts, far)
+    return st.one_of(base, base, base, base, far)
 
 
 # ----------------------------------------------------------------------------------------------
@@ -518,6 +522,8 @@ def run(prop, job, shard, nshards, seed, tier):
 
         def chk(case):
             v = check(case)
+            if any(abs(x) > 100 for b in case.get("box", []) for x in b):
+                v.tags = list(v.tags) + ["far-values"] + (["far-values-nontrivial"] if v.nontrivial else [])
             if v.nontrivial and in_small_scope(case, level):
                 v.nontrivial = False
                 v.tags = list(v.tags) + ["in-exhaustive-scope"]
